@@ -1,0 +1,59 @@
+//! Verification hooks. Compiled only with `--cfg ruschm_verif`; the shipped
+//! crate does not contain this module.
+//!
+//! An evaluation budget (fuel and nesting depth) for `eval_expression`, and a
+//! logical clock (number of evaluation steps taken on this thread).
+use std::cell::Cell;
+
+thread_local! {
+    static FUEL: Cell<u64> = const { Cell::new(u64::MAX) };
+    static MAX_DEPTH: Cell<u32> = const { Cell::new(u32::MAX) };
+    static DEPTH: Cell<u32> = const { Cell::new(0) };
+    static STEPS: Cell<u64> = const { Cell::new(0) };
+    static EXHAUSTED: Cell<bool> = const { Cell::new(false) };
+}
+
+/// Set the budget for the current thread. `u64::MAX` / `u32::MAX` disable it.
+pub fn set_budget(fuel: u64, max_depth: u32) {
+    FUEL.with(|f| f.set(fuel));
+    MAX_DEPTH.with(|d| d.set(max_depth));
+    DEPTH.with(|d| d.set(0));
+    EXHAUSTED.with(|e| e.set(false));
+}
+
+/// Evaluation steps taken on this thread so far.
+pub fn steps() -> u64 {
+    STEPS.with(|s| s.get())
+}
+
+/// Whether the budget ran out since the last `set_budget`.
+pub fn exhausted() -> bool {
+    EXHAUSTED.with(|e| e.get())
+}
+
+pub struct DepthGuard(());
+
+impl Drop for DepthGuard {
+    fn drop(&mut self) {
+        DEPTH.with(|d| d.set(d.get().saturating_sub(1)));
+    }
+}
+
+pub fn enter() -> Result<DepthGuard, ()> {
+    STEPS.with(|s| s.set(s.get().wrapping_add(1)));
+    let fuel = FUEL.with(|f| f.get());
+    if fuel != u64::MAX {
+        if fuel == 0 {
+            EXHAUSTED.with(|e| e.set(true));
+            return Err(());
+        }
+        FUEL.with(|f| f.set(fuel - 1));
+    }
+    let depth = DEPTH.with(|d| d.get());
+    if depth >= MAX_DEPTH.with(|d| d.get()) {
+        EXHAUSTED.with(|e| e.set(true));
+        return Err(());
+    }
+    DEPTH.with(|d| d.set(depth + 1));
+    Ok(DepthGuard(()))
+}
